@@ -88,10 +88,16 @@ def resumed(g, case):
     pb = {p: g.pot.balances[p] for p in order if p in g.pot.balances}
     la = {p: g.last_actions[p] for p in order if p in g.last_actions}
     install_sampler(g._cv_fake)
-    h = cls(num_players=n, deck=list(g.deck), starting_stacks=list(kw["starting_stacks"]), hands=kw["hands"],
-            boards=[list(g.boards[0])], ante=kw["ante"], blinds=list(g.blinds), stacks=list(g.stacks), action=g.action,
-            street=g.street, actions=list(g.actions), last_actions=la, pot_balances=pb, all_in_runouts=kw["all_in_runouts"],
-            rake_fraction=kw["rake_fraction"], max_rake=kw["max_rake"])
+    try:
+        h = cls(num_players=n, deck=list(g.deck), starting_stacks=list(kw["starting_stacks"]), hands=kw["hands"],
+                boards=[list(g.boards[0])], ante=kw["ante"], blinds=list(g.blinds), stacks=list(g.stacks), action=g.action,
+                street=g.street, actions=list(g.actions), last_actions=la, pot_balances=pb, all_in_runouts=kw["all_in_runouts"],
+                rake_fraction=kw["rake_fraction"], max_rake=kw["max_rake"])
+    except Exception as e:
+        # the constructor refused the fields of a reachable in-progress state: play goes on with the original object and the
+        # refusal is reported by the judge
+        g._cv_resume_exc = f"{type(e).__name__}: {str(e)[:100]} (seat to act {g.action}, street {g.street})"
+        return g
     h._cv_fake = g._cv_fake; h._cv_peek = g._cv_peek; h._cv_kw = kw
     return h
 
@@ -219,6 +225,8 @@ def run_ops(case, shared_from=None):
             if r == "internal":
                 break
     rec.pop("_frozen", None)
+    if getattr(g, "_cv_resume_exc", None):
+        rec["resume_exc"] = g._cv_resume_exc
     if forked is not None and forked[1] is not None:
         oi0, c = forked
         fsteps = []
